@@ -19,14 +19,26 @@ def stats(t: Any) -> Dict[str, float]:
     }
 
 
-def run_plain(m: Any, inp: Tuple[Any, ...], backward: bool) -> Tuple[Any, Dict[str, Any]]:
+def run_plain(m: Any, inp: Tuple[Any, ...], backward: Any) -> Tuple[Any, Dict[str, Any]]:
+    """backward: False | True | "double" (gradient of the squared input gradient: create_graph=True, then a
+    second differentiation through the first backward pass)"""
     import torch
 
     args = [a.clone().requires_grad_(True) if a.is_floating_point() and i == 0 else a.clone() for i, a in enumerate(inp)]
     y = m(*args)
     outs = y if isinstance(y, tuple) else (y,)
     grads: Dict[str, Any] = {}
-    if backward:
+    if backward == "double":
+        loss = sum((o if o.dim() == 0 else (o * torch.linspace(-1, 1, o.numel(), dtype=o.dtype).reshape(o.shape)).sum()) for o in outs)
+        ps = [p for p in m.parameters() if p.requires_grad]
+        wrt = ([args[0]] if args[0].is_floating_point() else []) + ps
+        g1 = torch.autograd.grad(loss, wrt, create_graph=True, allow_unused=True)
+        pen = sum((g * g).sum() for g in g1 if g is not None)
+        g2 = torch.autograd.grad(pen, wrt, allow_unused=True) if isinstance(pen, torch.Tensor) and pen.requires_grad else [None] * len(wrt)
+        for j, (a, b) in enumerate(zip(g1, g2)):
+            grads[f"first{j}"] = None if a is None else a.detach().clone()
+            grads[f"second{j}"] = None if b is None else b.detach().clone()
+    elif backward:
         loss = sum((o if o.dim() == 0 else (o * torch.linspace(-1, 1, o.numel(), dtype=o.dtype).reshape(o.shape)).sum()) for o in outs)
         if loss.requires_grad:  # (nothing to differentiate when every parameter is frozen and the input is integer)
             loss.backward()
@@ -53,6 +65,11 @@ def track(prog: Dict[str, Any], seed: int, backward: bool = True, calls: Optiona
     inp = inputs(prog, seed)
     plain = copy.deepcopy(m)
     y_plain, g_plain = run_plain(plain, inp, backward)
+    if calls and calls[-1].startswith("dd"):
+        try:  # is the un-instrumented program twice differentiable at all?
+            run_plain(copy.deepcopy(m), inp, "double")
+        except RuntimeError as e:
+            return {"skipped": f"plain module not twice differentiable: {str(e)[:60]}"}
     captured: List[Any] = []
     ex_inputs: List[Any] = []
     if tier_a:
@@ -97,10 +114,16 @@ def track(prog: Dict[str, Any], seed: int, backward: bool = True, calls: Optiona
 
     history = []
     modes = calls or (["fb"] if backward else ["f"])
+
+    def bmode(mode: str) -> Any:
+        return "double" if mode.startswith("dd") else mode.startswith("fb")
+
     for mode in modes:
         for p in t.parameters():
             p.grad = None
-        y_t, g_t = run_plain(t, inp, mode == "fb")
+        if prog.get("flag_tail") and not tier_a:
+            t.extra = not mode.endswith("-")  # flipping the switch forces a recompile (guard on the attribute)
+        y_t, g_t = run_plain(t, inp, bmode(mode))
         graph = t.scales_graph()
         snap = {}
         for n in graph.nodes:
@@ -108,10 +131,26 @@ def track(prog: Dict[str, Any], seed: int, backward: bool = True, calls: Optiona
             if mt is not None:
                 snap[n.name] = (dataclasses.replace(mt.fwd), None if mt.bwd is None else dataclasses.replace(mt.bwd))
         history.append((mode, snap))
-    backward = modes[-1] == "fb"
+    backward = modes[-1].startswith("fb")
+    if (prog.get("flag_tail") and not tier_a) or modes[-1].startswith("dd"):
+        # the un-instrumented run of the LAST call's program
+        if modes[-1].startswith("dd"):
+            # second-order gradients through custom autograd Functions differ between eager PyTorch and ANY
+            # TorchDynamo-captured run (also with an identity backend): the un-instrumented twin for this mode
+            # is the same module captured with an identity graph transform
+            from unit_scaling.transforms.utils import apply_transform
+
+            plain = apply_transform(plain, lambda gm_, ex_: gm_)
+            torch._dynamo.reset()
+        else:
+            plain.extra = not modes[-1].endswith("-")
+        for p in plain.parameters():
+            p.grad = None
+        y_plain, g_plain = run_plain(plain, inp, bmode(modes[-1]))
     rec: Dict[str, Any] = {}
     if captured:
-        gm = captured[0]
+        # the graph of the latest compilation (the flag histories end with a call that recompiles)
+        gm = captured[-1] if prog.get("flag_tail") else captured[0]
 
         class Snap:
             """value of a node output AT THE TIME it was produced + the total gradient that reached it"""
@@ -139,7 +178,7 @@ def track(prog: Dict[str, Any], seed: int, backward: bool = True, calls: Optiona
         # Dynamo hands the backend the real placeholder tensors (parameters, buffers, inputs):
         # the independent run gets detached copies of exactly those values
         vals = [e.detach().clone().requires_grad_(e.requires_grad) if isinstance(e, torch.Tensor) and e.is_floating_point()
-                else (e.clone() if isinstance(e, torch.Tensor) else e) for e in ex_inputs[0]]
+                else (e.clone() if isinstance(e, torch.Tensor) else e) for e in (ex_inputs[-1] if prog.get("flag_tail") else ex_inputs[0])]
         outs = Rec(gm).run(*vals)
         outs = outs if isinstance(outs, (tuple, list)) else (outs,)
         if backward:
